@@ -811,6 +811,10 @@ func Regex(ctx *context.Context, left, right value.Value) (value.Value, error) {
 func matchesAcl(acl value.Acl, ip net.IP) (bool, error) {
 	best := -1
 	matched := false
+	if acl.Value == nil {
+		// an ACL variable nothing has been assigned to matches no address
+		return false, nil
+	}
 	for _, entry := range acl.Value.CIDRs {
 		addr := net.ParseIP(entry.IP.Value)
 		if addr == nil {
